@@ -333,6 +333,75 @@ fn exported_tree_bounds(ev: &Evidence, rng: &mut SplitMix) -> Result<(), Violati
     Ok(())
 }
 
+/// `ExportedTree::filtered_direct_path` on the trees of live groups (3 to 9 members, then one interior member removed): for
+/// every leaf position of the tree, occupied or blank, stored or trimmed away, the list has one entry per node of the
+/// reference model's filtered direct path, blank exactly where the model's node is blank, with the model's public key.
+fn exported_tree_paths(ev: &Evidence) -> Result<(), Violation> {
+    use crate::refmodel::tree::{RefNode, RefTreeNodes};
+    use crate::world::{CommitSpec, World, WorldCfg};
+    use mls_rs::group::ExportedTree;
+    let harness = |what: &str| Violation { failure: Failure::new(format!("{P}|harness|{what}"), String::new()), case: None };
+    for n in 3..=9usize {
+        let mut w = World::new(P, WorldCfg::default_for(1));
+        let a = w.new_party();
+        w.create_group(a).map_err(|_| harness("create_group"))?;
+        let mut spec = CommitSpec::default();
+        for _ in 1..n {
+            spec.add.push(w.new_party());
+        }
+        w.commit_round(a, &spec).map_err(|f| Violation { failure: f, case: None })?.map_err(|_| harness("commit"))?;
+        // a path commit by the last member populates parents; then an interior removal leaves blanks
+        let last = *w.members().last().unwrap();
+        w.commit_round(last, &CommitSpec::default()).map_err(|f| Violation { failure: f, case: None })?.map_err(|_| harness("commit"))?;
+        for step in 0..2 {
+            if step == 1 {
+                let mut spec = CommitSpec::default();
+                spec.remove.push(1);
+                w.commit_round(a, &spec).map_err(|f| Violation { failure: f, case: None })?.map_err(|_| harness("commit"))?;
+            }
+            let bytes = w.parties[a].g().export_tree().to_bytes().map_err(|_| harness("export_tree"))?;
+            let t = ExportedTree::from_bytes(&bytes).map_err(|_| harness("decode tree"))?;
+            let m = RefTreeNodes::parse(&bytes).ok_or_else(|| harness("parse tree"))?;
+            let leaves = (t.nodes().len() as u32).div_ceil(2).next_power_of_two();
+            for leaf in 0..leaves {
+                let want: Vec<Option<Vec<u8>>> = m
+                    .filtered_direct_path(leaf)
+                    .into_iter()
+                    .map(|(p, _)| match m.nodes.get(p as usize) {
+                        Some(RefNode::Parent(pn)) => Some(pn.encryption_key.clone()),
+                        _ => None,
+                    })
+                    .collect();
+                let li = LeafIndex::try_from(leaf).map_err(|_| harness("leaf index"))?;
+                let got: Option<Vec<Option<Vec<u8>>>> = t.filtered_direct_path(li).ok().map(|v| v.into_iter().map(|p| p.map(|pp| pp.public_key.as_ref().to_vec())).collect());
+                ev.eval(1);
+                if got.as_ref() != Some(&want) {
+                    return Err(fail(
+                        "exported_tree_filtered_direct_path",
+                        leaves,
+                        2 * leaf as u64,
+                        format!(
+                            "tree of {} stored nodes ({n} members{}): filtered_direct_path(leaf {leaf}) has {:?} entries (blank pattern {:?}), the reference has {} ({:?})",
+                            t.nodes().len(),
+                            if step == 1 { ", leaf 1 removed" } else { "" },
+                            got.as_ref().map(|g| g.len()),
+                            got.as_ref().map(|g| g.iter().map(|x| x.is_some()).collect::<Vec<_>>()),
+                            want.len(),
+                            want.iter().map(|x| x.is_some()).collect::<Vec<_>>()
+                        ),
+                    ));
+                }
+                if 2 * leaf as usize >= t.nodes().len() {
+                    ev.nontrivial(&("fdp_trimmed_leaf", n, step, leaf));
+                    ev.class("filtered_direct_paths_of_trimmed_leaves");
+                }
+            }
+        }
+    }
+    ev.class("exported_tree_filtered_direct_paths");
+    Ok(())
+}
+
 /// Calibration of the reference model itself against the IETF tree-math vector.
 fn calibrate() -> Result<(), String> {
     let path = format!("{VERIF_ROOT}/vectors/tree_math.json");
@@ -368,7 +437,7 @@ pub fn run(ctx: &Ctx) -> ! {
         "exhaustive: every leaf count n = 2^k (k = 0..12) and every node x in [0, 2n-2] plus indices just outside \
          and far outside; every leaf pair for k <= 10; sampled: nodes of trees with 2^13..2^24 leaves (biased to root, \
          edges and every level) and random leaf pairs; oracle = recursive left-balanced-tree definition (refmodel::treemath), \
-         calibrated on the IETF tree_math vector. Node / leaf lookups (ExportedTree::get_parent / get_leaf) on node vectors of every odd length up to 129 and around 2^7..2^13: Ok exactly for the indices of the tree, also at the first index after it. Non-trivial = (n, x) with x not a leaf or n >= 4 (distinct by value), \
+         calibrated on the IETF tree_math vector. Node / leaf lookups (ExportedTree::get_parent / get_leaf) on node vectors of every odd length up to 129 and around 2^7..2^13: Ok exactly for the indices of the tree, also at the first index after it. ExportedTree::filtered_direct_path of every leaf position (occupied, blank, trimmed away) of the trees of 3- to 9-member live groups, before and after an interior removal, against the reference model. Non-trivial = (n, x) with x not a leaf or n >= 4 (distinct by value), \
          distinct leaf pairs a != b, outside-tree probes.",
     );
     ev.assume("the reference model refmodel::treemath (recursive definition) is correct; it is calibrated on the IETF tree_math vectors before use");
@@ -409,6 +478,7 @@ pub fn run(ctx: &Ctx) -> ! {
         }
         leaf_index_bound(&ev, &mut rng)?;
         exported_tree_bounds(&ev, &mut rng)?;
+        exported_tree_paths(&ev)?;
         Ok(())
     })();
 
